@@ -19,6 +19,8 @@ for n in range(1, 11):
     HARNESSES['dispatch_arity_%d' % n] = ('basis_function', 'complete', 'loop-free; all u64 parameter values, symbolic position')
 HARNESSES['cbr_rejects_bad_p_f64'] = ('statistics', 'complete', 'loop-free prefix; all f64 bit patterns outside (0,1) or non-finite; code after the assertion must be unreachable')
 HARNESSES['cbr_rejects_bad_p_f32'] = ('statistics', 'complete', 'loop-free prefix; all f32 bit patterns outside (0,1) or non-finite; code after the assertion must be unreachable')
+HARNESSES['cbr_quantile_argument_f32'] = ('statistics', 'complete', 'all f32 probabilities in (0,1); distrs::StudentsT::ppf stubbed by a probe that records its arguments')
+HARNESSES['cbr_quantile_argument_f64'] = ('statistics', 'complete', 'all f64 probabilities in (0,1); distrs::StudentsT::ppf stubbed by a probe that records its arguments')
 HARNESSES['stats_error_from_model_error'] = ('statistics', 'complete', 'loop-free; all payload values of two ModelError variants')
 HARNESSES['is_all_finite_2x2'] = ('levmar', 'bounded', '2 x 2 matrix, all f64 bit patterns, unwind 6')
 HARNESSES['to_vector_colmajor_3x2'] = ('levmar', 'bounded', '3 x 2 matrix, symbolic entries and position, unwind 8')
@@ -95,7 +97,7 @@ def run_harnesses(P, tier, repo, pid):
     out_h = []
     try:
         rc = prepare(repo, scratch, modules)
-        cmd = ['cargo', 'kani', '--target-dir', os.path.join(scratch, 'target')]
+        cmd = ['cargo', 'kani', '-Z', 'stubbing', '--target-dir', os.path.join(scratch, 'target')]
         for n in names:
             cmd += ['--harness', n]
         env = dict(os.environ, CARGO_NET_OFFLINE='true')
@@ -119,6 +121,6 @@ def run_harnesses(P, tier, repo, pid):
             out_h.append(dict(name=n, kind=kind, bound=bound, status=r['status'], file=MODULES[mod][0],
                               failed_checks=r['failed_checks'], output_tail=r['output_tail'] if r['status'] != 'SUCCESS' else '',
                               concrete=None))
-        return {'harnesses': out_h, 'cmds': [' '.join(cmd[:2] + cmd[4:]) + ' (in a scratch copy of /repo with kani/*.rs injected behind cfg(kani)); %.0fs' % wall]}
+        return {'harnesses': out_h, 'cmds': [' '.join(cmd[:4] + cmd[6:]) + ' (in a scratch copy of /repo with kani/*.rs injected behind cfg(kani)); %.0fs' % wall]}
     finally:
         shutil.rmtree(scratch, ignore_errors=True)
